@@ -318,7 +318,7 @@ func c13Record(tier string, seed int64, emit func(interface{})) {
 			}
 		}
 		// (b) the harness's own writer: arbitrary wrapping, blank / comment lines, CRLF
-		if i >= nBig || tier == "thorough" {
+		if i >= nBig || tier == "thorough" || i < 2 {
 			var lines []string
 			if rng.Intn(3) == 0 {
 				lines = append(lines, "; written by an independent FASTA writer", "")
@@ -332,6 +332,12 @@ func c13Record(tier string, seed int64, emit func(interface{})) {
 				}
 				if len(s) > 20000 {
 					w = 60 + rng.Intn(60000)
+					if rng.Intn(2) == 0 { // lines of exactly / next to 2^16 letters (and twice that)
+						w = []int{65535, 65536, 65537, 131071, 65534}[rng.Intn(5)]
+					}
+					if i < 2 {
+						w = []int{65535, 131071}[i]
+					}
 				}
 				for len(s) > 0 {
 					c := w
@@ -352,13 +358,13 @@ func c13Record(tier string, seed int64, emit func(interface{})) {
 			// a sequence line must not look like a header or a comment
 			okLayout := true
 			for _, l := range lines {
-				if len(l) > 65000 {
+				if len(l) > 200000 {
 					okLayout = false
 				}
 			}
 			if okLayout && len(lines) <= 2000 {
 				eol := "\n"
-				if rng.Intn(3) == 0 {
+				if rng.Intn(3) == 0 || (i < nBig && i != 2) {
 					eol = "\r\n"
 				}
 				text := strings.Join(lines, eol)
